@@ -72,27 +72,29 @@ def tagged_bytes(tag, off, n):
 _TAG_CACHE = {}
 
 
+def _row_table():
+    t = _TAG_CACHE.get("rows")
+    if t is None:
+        t = [bytes((((c + k * 31) & 0xFF) or 1) for k in range(256)) for c in range(256)]
+        _TAG_CACHE["rows"] = t
+    return t
+
+
 def tagged_bytes_fast(tag, off, n):
-    """Same function as tagged_bytes, vectorised by period: the byte depends on
-    i mod 2^24 only; build with bytes arithmetic per 256-byte row."""
-    # rows of 256 bytes: v = (base + i*31 + (i>>8)*17 + (i>>16)*7) & 255
-    out = bytearray()
+    """Same function as tagged_bytes, built from precomputed 256-byte rows."""
+    rows = _row_table()
+    out = []
     base = (tag * 2654435761) & 0xFFFFFFFF
     i = off
     end = off + n
-    row31 = _TAG_CACHE.get("row31")
-    if row31 is None:
-        row31 = [(k * 31) & 0xFF for k in range(256)]
-        _TAG_CACHE["row31"] = row31
     while i < end:
         r = i >> 8
         lo = i & 0xFF
         hi = min(256, lo + (end - i))
         c = (base + (r << 8) * 31 + r * 17 + (r >> 8) * 7) & 0xFF
-        row = bytes(((c + row31[k]) & 0xFF) or 1 for k in range(lo, hi))
-        out += row
+        out.append(rows[c][lo:hi])
         i += hi - lo
-    return bytes(out)
+    return b"".join(out)
 
 
 def make_file(path, size, data_ranges, tag=1, sync=True):
